@@ -168,6 +168,18 @@ CHECKS['C08'] = {
     'technique': 'abstract interpretation to closed forms + scale-type inference + term-shape rules + statement-order analysis of recurrences',
 }
 
+CHECKS['C20'] = {
+    'category': 'other',
+    'text': 'For both kernels and all 12 forward impls: the scalar closed form, as a function of the squared distance r >= 0 under the constructor '
+            'invariants (var, alpha, length_scale > 0, checked), is positive, non-increasing in r and equals var at r = 0 (interval + monotonicity '
+            'abstract evaluation); x and y enter only through (x-y)^2 resp. through |x|^2 (column) + |y|^2 (row) - 2 x.y^T, giving symmetry and the '
+            'n_x x n_y shape; each matrix form is the same operator tree as the scalar form over the distance leaf; scale type of the result is V. '
+            'Positive semi-definiteness of Gram matrices is a theorem about the analytic form and is not decided.',
+    'design_ref': 'DESIGN.md 4.20, 3 (E-ABS monotonicity, E-SIB, E-SYM)',
+    'note': 'Monotonicity reasoning is over the reals. Broadcasting of column + row is C12\'s classifier.',
+    'technique': 'interval + monotonicity abstract interpretation of closed forms, operator-tree sibling comparison, term-shape matching',
+}
+
 NOT_APPLICABLE = {
     'C09': 'accuracy of the Lanczos/asymptotic/Abramowitz-Stegun approximations over a continuum of arguments is a numerical '
            'quantity; no structural clause is a necessary condition without freezing coefficient tables (a brittle proxy); see DESIGN.md 4.9',
